@@ -12,7 +12,7 @@ import json
 
 from vlib import runner, sut, std, encutil, forkexec
 from vlib.runner import Outcome, Report, Reject
-from gen import messages as gmsg, templates as gtemplates
+from gen import messages as gmsg, templates as gtemplates, pool as gpool
 from refbufr import tables as rtables, tree as rtree
 
 PID = 'C13'
@@ -224,6 +224,21 @@ def gen_hist(ch, opts, real_limit=False):
                         continue
                 except Exception:
                     pass
+            if ch.bool(1, 6) and len(cases) + 2 <= n:
+                # twins: one WMO sequence on one master version, once with and once without a local table that
+                # re-defines something the sequence reaches (two table groups that share their WMO part)
+                mv = ch.choice(opts.versions or versions)
+                seqs = gpool.override_sequences(mv, (98, 0, 101))
+                if seqs:
+                    sid = ch.choice(seqs)
+                    try:
+                        pair = [gmsg.gen_case(ch, opts, fixed=(mv, loc, [sid])) for loc in ((98, 0, 101), None)]
+                    except Reject:
+                        pair = []
+                    for c in pair:
+                        c.features.add('same_sequence_with_and_without_local_table')
+                    cases.extend(pair if ch.bool() else pair[::-1])
+                    continue
             cases.append(gmsg.gen_case(ch, opts))
     damaged = []
     for _ in range(ch.int(0, 2)):
@@ -298,6 +313,8 @@ def classify(hc):
 def check_hist(hc):
     out = Outcome()
     cls = classify(hc)
+    if any('same_sequence_with_and_without_local_table' in c.features for c in hc.cases):
+        cls.add('twins_with_and_without_local_table')
     out.classes = sorted(cls) + ['table_limit_%s' % (hc.table_limit or 'real')] + sorted(set('coder_cache_%s' % c for c in hc.coder_caches))
     out.nontrivial = bool(cls & {'revisit_after_table_eviction', 'revisit_after_compiled_eviction', 'revisit_after_failure'})
     pool = hc.pool()
